@@ -17,7 +17,7 @@ fn label_txt(l: &Value) -> String {
 fn name_txt(s: &str) -> String {
     let plain = !s.is_empty() && s.chars().all(|c| c.is_ascii_alphanumeric() || c == '_') && !s.chars().next().unwrap().is_ascii_digit()
         && !["type", "import", "service", "func", "opt", "vec", "record", "variant", "blob", "principal", "nat", "int", "text", "bool", "null", "reserved", "empty", "oneway", "query", "composite_query", "float32", "float64",
-             "nat8", "nat16", "nat32", "nat64", "int8", "int16", "int32", "int64"].contains(&s);
+             "nat8", "nat16", "nat32", "nat64", "int8", "int16", "int32", "int64", "true", "false"].contains(&s);
     if plain { s.to_string() } else { crate::hash::lit(s) }
 }
 fn docs_txt(v: &Value) -> String {
@@ -167,7 +167,7 @@ impl PG {
         let mut used: Vec<String> = vec![];
         let mut out = vec![];
         for _ in 0..n {
-            let mut nm = if self.rng.gen_bool(0.4) { ["x", "y", "from", "é", "arg0"].choose(&mut self.rng).unwrap().to_string() } else { String::new() };
+            let mut nm = if self.rng.gen_bool(0.4) { ["x", "y", "from", "é", "arg0", "type", "query", "null", "vec", "service", "import", "true", "false", "a b", "opt", "principal", "blob", "func", "record", "variant", "oneway", "composite_query", "x\u{0}", "\"", "*/"].choose(&mut self.rng).unwrap().to_string() } else { String::new() };
             if self.valid && used.contains(&nm) { nm = String::new(); }
             if !nm.is_empty() { used.push(nm.clone()); }
             out.push(json!({"n": nm, "t": self.ty(names, depth)}));
@@ -226,6 +226,37 @@ impl PG {
         json!({"defs": defs, "actor": actor})
     }
 }
+/// C14, import leg: the files of the case are written to a scratch directory and the root is checked by check_file
+pub fn import_case(idx: usize, c: &Value) -> Value {
+    let dir = std::env::temp_dir().join(format!("cv_imp_{}", std::process::id())).join(idx.to_string());
+    let _ = std::fs::remove_dir_all(&dir);
+    std::fs::create_dir_all(&dir).unwrap();
+    let files = c["files"].as_object().unwrap();
+    for (name, f) in files {
+        let mut src = String::new();
+        for i in f["imports"].as_array().unwrap() {
+            src.push_str(&format!("import {}\"{}.did\";\n", if i["svc"].as_bool().unwrap_or(false) { "service " } else { "" }, i["f"].as_str().unwrap()));
+        }
+        src.push_str(&render(&f["p"]));
+        std::fs::write(dir.join(format!("{name}.did")), src).unwrap();
+    }
+    let root = dir.join(format!("{}.did", c["root"].as_str().unwrap()));
+    let r = guard(|| candid_parser::typing::check_file(&root));
+    let out = match r {
+        Ok(Ok((te, actor, _merged))) => {
+            let defs: Vec<String> = te.0.keys().cloned().collect();
+            let serv = actor.as_ref().map(|a| match a.as_ref() { TypeInner::Class(_, s) => s.clone(), _ => a.clone() });
+            let ms: Vec<String> = match serv { Some(s) => match te.as_service(&s) { Ok(ms) => ms.iter().map(|(n, _)| n.clone()).collect(), Err(_) => vec!["<not a service>".to_string()] }, None => vec![] };
+            json!({"impl": 1, "msg": "", "ms": ms, "defs": defs, "actor": actor.is_some()})
+        }
+        Ok(Err(e)) => json!({"impl": 0, "msg": e.to_string().chars().take(160).collect::<String>(), "ms": [], "defs": []}),
+        Err(s) => json!({"impl": 2, "msg": format!("panic@{s}"), "ms": [], "defs": []}),
+    };
+    let _ = std::fs::remove_dir_all(&dir);
+    let mut o = json!({"idx": idx, "kind": "import", "files": c["files"], "root": c["root"]});
+    for (k, v) in out.as_object().unwrap() { o[k] = v.clone(); }
+    o
+}
 pub fn lab_id(l: &Value) -> u32 {
     match l { Value::String(s) => s.parse::<u32>().unwrap_or_else(|_| crate::corpus::hash(s)), o => if o["k"] == "id" { crate::absty::jid(&o["v"]) } else { crate::corpus::hash(&String::from_utf8(jbytes(&o["b"])).unwrap()) } }
 }
@@ -238,6 +269,7 @@ pub fn run(o: &Opts) {
         if idx >= o.start {
             match mode {
                 "wf" => out.emit(&wf_case(idx, "wf", &c["p"], c["wf"].as_i64())),
+                "import" => out.emit(&import_case(idx, c)),
                 "pp" => { if c["wf"].as_i64() == Some(1) { let src = render(&c["p"]); out.emit(&pp_case(idx, &src, "tlc")); } else { out.emit(&json!({"idx": idx, "kind": "skip"})); } }
                 _ => out.emit(&crate::bind::case(idx, mode, &render(&c["p"]), c["wf"].as_i64() == Some(1), "tlc")),
             }
